@@ -19,6 +19,7 @@ EXPLANATION = (
     "R-ATOMIC + keyed discipline: add_parameter / remove_parameter reject before writing and store/delete exactly one "
     "entry. 'First declared varies slowest' is then itertools.product's documented order (trusted).")
 EXPLANATION += (" The constructor walks its dictionary in the dictionary's own order (not sorted / reversed / a set).")
+EXPLANATION += (' The TypeError handler of build() contains no raise.')
 ASSUMPTIONS = ["itertools.product semantics", "dict preserves insertion order", "values are re-iterable (quantifier)"]
 
 PL = BATCH + 'ParameterList'
@@ -154,10 +155,16 @@ def check_build(cx: Cx):
                 hp_all = cx.walker.paths(helper, WalkOptions(unroll=1))
                 hparams = helper.params if (helper.is_static or helper.cls is None) else helper.params[1:]
                 hargs = entry.args[-len(hparams):] if hparams else ()
-                if len(hparams) != 2 or tuple(hargs) != (key, value) or entry.kw:
+                by_name = len(hparams) == 1 and tuple(hargs) == (key,) and not entry.kw and helper.cls is not None and not helper.is_static \
+                    and value == Sub(params, key)
+                if not by_name and (len(hparams) != 2 or tuple(hargs) != (key, value) or entry.kw):
                     viol('R-GUARD', 'entry-shape', f"build() appends {entry!r}: the helper does not receive exactly (key, value)", awhere)
                     continue
-                hk, hv = Sym(hparams[0]), Sym(hparams[1])
+                if by_name:
+                    # a method that is given the name only and reads the value from the declaration itself: `self._parameters[name]`
+                    hk, hv = Sym(hparams[0]), Sub(Attr(Sym(helper.params[0]), '_parameters'), Sym(hparams[0]))
+                else:
+                    hk, hv = Sym(hparams[0]), Sym(hparams[1])
                 htable = _loop_stage_table(hp_all)
                 for hq in hp_all:
                     if hq.end != 'return':
@@ -181,6 +188,12 @@ def check_build(cx: Cx):
     # the TypeError handler guards only the iteration of the value
     for n in ast.walk(build.node):
         if isinstance(n, ast.Try):
+            # every TypeError of the iteration means "a single value": a handler that looks at the message and re-raises the others
+            # refuses the scalars whose TypeError is worded differently (a 0-d numpy array: "iteration over a 0-d array")
+            if any(isinstance(y, ast.Raise) for h in n.handlers for y in ast.walk(h)):
+                cx.violation('R-GUARD', build.qualname, 'fallback-for-every-TypeError-of-the-iteration',
+                             "the TypeError handler of build() re-raises some of the errors it catches: a value that cannot be iterated is "
+                             "a single value whatever the wording of its TypeError", where=cx.where(build, n.lineno))
             if not _try_only_iterates(n):
                 cx.violation('R-GUARD', build.qualname, 'try-guards-only-the-value-iteration',
                              "the try block in build() contains more than the iteration of the value: an unrelated TypeError "
@@ -380,7 +393,7 @@ def check_declaration(cx: Cx):
     sites = cx.effects.sites_of(LOC)
     allowed = {PL + '.__init__', addp.qualname, remp.qualname}
     for s in sites:
-        if s.owner_q not in allowed:
+        if not s.owned_within(allowed):
             cx.violation('R-DISC', s.fn.qualname, f"_parameters-{s.kind}", f"{s.describe()}: the declaration is written outside the "
                          f"constructor / add_parameter / remove_parameter (building must never change it)", where=s.where)
     cx.floor('_parameters write sites', len(sites), 4)
